@@ -304,6 +304,8 @@ pub(crate) struct Sys {
     vpn_seen: BTreeSet<u8>,
     deferring: bool,
     touched: bool,
+    /// a deferral took place in this history (hidden table state must not be merged away)
+    ever_deferred: bool,
     /// the current session's prefix-limit counter per peer
     limit_ctr: [Arc<std::sync::atomic::AtomicU64>; 2],
 }
@@ -800,6 +802,7 @@ impl Model for C20Model {
             vpn_seen: BTreeSet::new(),
             deferring: false,
             touched: false,
+            ever_deferred: false,
             limit_ctr: [Default::default(), Default::default()],
         }
     }
@@ -955,6 +958,7 @@ impl Model for C20Model {
                 }
                 sys.tm.start_deferral_families(&all_fams);
                 sys.deferring = true;
+                sys.ever_deferred = true;
             }
             Op::EndDeferral => {
                 if !sys.deferring {
@@ -1043,7 +1047,7 @@ impl Model for C20Model {
             "u{:?}sp{:?}lp{:?}pol{}d{:?}fib{:?}nht{:?}B{:?}an{:?}vs{:?}",
             sys.up, sys.stale_pending, sys.llgr_pending, sys.policy_on, sys.down, sys.fib, sys.nht, sys.broken, sys.announced, sys.vpn_seen
         );
-        let _ = write!(s, "df{}{}lc{:?}", sys.deferring as u8, sys.touched as u8, sys.limit_ctr.iter().map(|c| c.load(std::sync::atomic::Ordering::Relaxed)).collect::<Vec<_>>());
+        let _ = write!(s, "df{}{}{}lc{:?}", sys.deferring as u8, sys.touched as u8, sys.ever_deferred as u8, sys.limit_ctr.iter().map(|c| c.load(std::sync::atomic::Ordering::Relaxed)).collect::<Vec<_>>());
         s.into_bytes()
     }
 
